@@ -13,6 +13,7 @@ Cases == [valid : BOOLEAN,          \* the input file satisfies every section sc
           convert : {"none", "IDF", "other"},
           outdir : BOOLEAN,         \* output directory argument given
           designOK : BOOLEAN,       \* the design run completes (no exception)
+          incomplete : BOOLEAN,     \* schema-valid input the manager cannot design from (empty load list): find_design(throw=False) reports 1, raises nothing
           summaryOK : BOOLEAN]      \* --convert IDF: the given path is a simulation summary with its g-function file
 
 VARIABLES case, pc, ret, outputs, idf
@@ -39,8 +40,9 @@ WorkerValidate == /\ pc = "WorkerValidate"
                   /\ IF case.valid THEN pc' = "WorkerRun" /\ UNCHANGED ret ELSE pc' = "Exit" /\ ret' = 1
                   /\ UNCHANGED <<case, outputs, idf>>
 \* an exception in the design run leaves through the interpreter (traceback, status 1) before anything is written
+\* an incomplete manager reports a status the worker does not look at; the reporting step that follows has no search to report and raises
 WorkerRun == /\ pc = "WorkerRun"
-             /\ IF case.designOK THEN outputs' = TRUE /\ ret' = 0 /\ pc' = "Exit"
+             /\ IF case.designOK /\ ~case.incomplete THEN outputs' = TRUE /\ ret' = 0 /\ pc' = "Exit"
                                  ELSE outputs' = FALSE /\ ret' = 1 /\ pc' = "Crash"
              /\ UNCHANGED <<case, idf>>
 Next == Parse \/ ValidateOnly \/ Convert \/ RequireOutDir \/ WorkerValidate \/ WorkerRun
